@@ -62,7 +62,7 @@ def gen_case(rng):
     inert = None
     if kind in ('any', 'single') and rng.random() < 0.5: inert = rng.choice(['N2', 'Glucose'])
     return {'kind': kind, 'ids': ids, 'x': x, 'F': round(10 ** rng.uniform(-2, 3), 5), 'inert': inert, 'inert_frac': round(rng.uniform(0.001, 0.02), 5),
-            'T': round(rng.uniform(280, 450), 2), 'P': round(10 ** rng.uniform(math.log10(2e4), 6), 1), 'V': round(rng.uniform(0.03, 0.97), 4), 'f': round(rng.uniform(0.05, 0.95), 4),
+            'T': round(rng.uniform(280, 450), 2), 'P': round(10 ** rng.uniform(math.log10(2e4), 6), 1), 'V': round(rng.uniform(0.03, 0.97), 4), 'f': round(rng.uniform(0.05, 0.95), 4) if rng.random() < 0.65 else rng.choice([-0.015, -0.005, 0.002, 0.01, 0.03, 0.97, 0.99, 1.005, 1.015]),
             'k': round(10 ** rng.uniform(-3, 3), 6)}
 
 
